@@ -56,6 +56,21 @@ pub fn measure_tsc_precision(frequency: u64) -> u128 {
         .picos
 }
 
+/// `Timer::precision()` - the cached accessor the runner reports from - for
+/// the OS timer and for a TSC timer of the given frequency, queried in the
+/// given order. Returns `(os, tsc)` in picoseconds. Meant for a fresh process
+/// (the caches are per process) with no precision override installed.
+pub fn cached_precisions(tsc_frequency: u64, tsc_first: bool) -> (u128, u128) {
+    let tsc_timer = Timer::Tsc { frequency: NonZeroU64::new(tsc_frequency).unwrap() };
+    if tsc_first {
+        let tsc = tsc_timer.precision().picos;
+        (Timer::Os.precision().picos, tsc)
+    } else {
+        let os = Timer::Os.precision().picos;
+        (os, tsc_timer.precision().picos)
+    }
+}
+
 /// `Display` of `FineDuration` with optional width and precision.
 pub fn fmt_duration(
     picos: u128,
